@@ -122,9 +122,14 @@ def evaluate(slot, sid, tiers=("quick",)):
     out = []
     for tier in tiers:
         p = sh([sys.executable, os.path.join(VERIF, "tools_mutant.py"), "run", slot, os.path.join(d, "patch.diff")] + ["%s:%s" % (c, tier) for c in checks])
-        for line in p.stdout.splitlines():
-            if line.startswith("{"):
-                out.append(json.loads(line))
+        got = [json.loads(line) for line in p.stdout.splitlines() if line.startswith("{")]
+        # an inconclusive or crashed run (exit 3 / other) says nothing about the change: run those checks once more
+        again = [r["check"] for r in got if r.get("exit") not in (0, 1) and not r.get("error")]
+        if again:
+            p2 = sh([sys.executable, os.path.join(VERIF, "tools_mutant.py"), "run", slot, os.path.join(d, "patch.diff")] + ["%s:%s" % (c, tier) for c in again])
+            redo = {r["check"]: r for r in (json.loads(line) for line in p2.stdout.splitlines() if line.startswith("{"))}
+            got = [dict(redo[r["check"]], first_attempt_exit=r.get("exit")) if r.get("check") in redo else r for r in got]
+        out.extend(got)
         if any(r.get("violations") for r in out):
             break
     return out
